@@ -273,7 +273,8 @@ pub fn eval<D: Dom>(c: &Case<D>, mode: Mode, o: &mut Out) -> Evaluated {
             Mode::C01 => "s",
             Mode::C02 => "wct",
             Mode::C07 => if D::NAME == "str" { "wsctu" } else { "wsct" },
-            Mode::C09 | Mode::C08 => "w",
+            Mode::C09 => "w",
+            Mode::C08 => "wt",
             Mode::C17 | Mode::C05 => "",
             _ => "wsct",
         };
